@@ -22,7 +22,8 @@
 
    The model is of the REPAIRED code (worktree commits "fix: HashTable.enableCaching(False) ...",
    "fix: composition cache keys no longer overflow int32 ...", "fix: setHashSensitivity drops entries ...",
-   "fix: cached composition sets are updated under the same conditions as a fresh equilibrium").
+   "fix: cached composition sets are updated under the same conditions as a fresh equilibrium",
+   "fix: setDrivingForceMethod drops composition sets cached by the previous method").
    What the unrepaired code did is kept in section `Legacy` below; Examples.v refutes the property for it. *)
 From Coq Require Import ZArith QArith List Bool.
 Import ListNotations.
@@ -272,7 +273,7 @@ Section Thermo.
 
   (* pycalphad *)
   Variable solve : Cd -> list cset -> Res * list cset. (* Solver().solve: result, converged sets *)
-  Variable naive : Ph -> Cd -> Y.                      (* lowest sampled point, calculate(pdens=10) *)
+  Variable naive : Ph -> Tm -> G -> Y.                 (* lowest sampled point, calculate(T, GE, pdens=10) *)
   Variable is_nan : Res -> bool.                       (* any(isnan(chemical_potentials)) *)
   Variable sample : Ph -> Tm -> Smp.                   (* calculate(pdens=sampling_pDens, T=T, GE=gOffset) *)
   Variable best : Smp -> Res -> Val * Y.               (* largest distance below the matrix hyperplane *)
@@ -290,7 +291,7 @@ Section Thermo.
   Definition refresh (cd : Cd) (c : cset) : cset := mkcs (cs_ph c) (cdT cd) (cdG cd) (cs_y c).
   Definition local_eq (phases : list Ph) (cd : Cd) (start : option (list cset)) : Res * list cset :=
     match start with
-    | None => solve cd (map (fun p => mkcs p (cdT cd) (cdG cd) (naive p cd)) phases)
+    | None => solve cd (map (fun p => mkcs p (cdT cd) (cdG cd) (naive p (cdT cd) (cdG cd))) phases)
     | Some l => solve cd (map (refresh cd) l)
     end.
 
@@ -413,26 +414,49 @@ Section Thermo.
   | QDF (x : X) (T : Tm) (p : Ph) (rm : bool)          (* getDrivingForce, one point *)
   | QInter (x : X) (T : Tm) (p : Ph) (rm : bool)       (* getInterdiffusivity *)
   | QTracer (x : X) (T : Tm) (p : Ph) (rm : bool)      (* getTracerDiffusivity *)
-  | QClear.                                            (* clearCache *)
+  | QClear                                             (* clearCache *)
+  | QMethod (m : method).                              (* setDrivingForceMethod *)
 
   Inductive answer := ADF (r : option (Val * Val)) | AVal (v : Val) | ANone.
 
-  Definition run1 (m : method) (s : tstate) (q : query) : tstate * answer :=
+  (* the object: the configured driving-force method and the caches *)
+  Definition obj := (method * tstate)%type.
+  Definition obj_init (m : method) : obj := (m, t_init).
+
+  Definition run1 (o : obj) (q : query) : obj * answer :=
+    let (m, s) := o in
     match q with
     | QDF x T p rm =>
         let (s', r) := match m with
                        | Tangent => df_tangent s x T p rm
                        | Sampling => df_sampling s x T p rm
                        | Approx => df_approx s x T p rm
-                       end in (s', ADF r)
-    | QInter x T p rm => let (s', v) := interdiff s x T rm p in (s', AVal v)
-    | QTracer x T p rm => let (s', v) := tracer s x T rm p in (s', AVal v)
-    | QClear => (t_init, ANone)
+                       end in ((m, s'), ADF r)
+    | QInter x T p rm => let (s', v) := interdiff s x T rm p in ((m, s'), AVal v)
+    | QTracer x T p rm => let (s', v) := tracer s x T rm p in ((m, s'), AVal v)
+    | QClear => ((m, t_init), ANone)
+    | QMethod m' => ((m', set_df s []), ANone)
     end.
 
-  Fixpoint run (m : method) (s : tstate) (qs : list query) : tstate * list answer :=
+  Fixpoint run (o : obj) (qs : list query) : obj * list answer :=
     match qs with
-    | [] => (s, [])
-    | q :: r => let (s1, a) := run1 m s q in let (s2, as_) := run m s1 r in (s2, a :: as_)
+    | [] => (o, [])
+    | q :: r => let (o1, a) := run1 o q in let (o2, as_) := run o1 r in (o2, a :: as_)
     end.
 End Thermo.
+
+Arguments mkcs {Tm G Y}. Arguments cs_ph {Tm G Y}. Arguments cs_T {Tm G Y}. Arguments cs_g {Tm G Y}. Arguments cs_y {Tm G Y}.
+Arguments refresh {Tm G Y Cd}. Arguments local_eq {Tm G Y Res Cd}.
+Arguments mkT {Tm G Y Smp}. Arguments df_cs {Tm G Y Smp}. Arguments mat_cs {Tm G Y Smp}. Arguments pts {Tm G Y Smp}.
+Arguments diff_cs {Tm G Y Smp}. Arguments curv_cs {Tm G Y Smp}.
+Arguments t_init {Tm G Y Smp}. Arguments set_df {Tm G Y Smp}. Arguments set_mat {Tm G Y Smp}. Arguments set_pts {Tm G Y Smp}.
+Arguments set_diff {Tm G Y Smp}. Arguments set_curv {Tm G Y Smp}. Arguments reset_df {Tm G Y Smp}.
+Arguments diffusivity {X Tm G Y Res Smp Val Cd}. Arguments interdiff {X Tm G Y Res Smp Val Cd}. Arguments tracer {X Tm G Y Res Smp Val Cd}.
+Arguments prec_sample {Tm G Y Res Smp Val}. Arguments df_sampling {X Tm G Y Res Smp Val} Tm_eqb {Cd}.
+Arguments df_tangent {X Tm G Y Res Smp Val} Tm_eqb {Cd}. Arguments compsets_eq {X Tm G Y Res Cd}.
+Arguments df_approx {X Tm G Y Res Smp Val} Tm_eqb {Cd}.
+Arguments pick {Tm G Y}. Arguments count_ph {Tm G Y}. Arguments gap {Tm G Y}.
+Arguments QDF {X Tm}. Arguments QInter {X Tm}. Arguments QTracer {X Tm}. Arguments QClear {X Tm}. Arguments QMethod {X Tm}.
+Arguments ADF {Val}. Arguments AVal {Val}. Arguments ANone {Val}.
+Arguments obj_init {Tm G Y Smp}.
+Arguments run1 {X Tm G Y Res Smp Val} Tm_eqb {Cd}. Arguments run {X Tm G Y Res Smp Val} Tm_eqb {Cd}.
